@@ -43,16 +43,18 @@ def freqRangeIdx (w : Nat) (r : Rng) : Option Rng :=
   | some a, some _ => some (a, narrowUp (64 - w) (freqHash64 r.2))
   | _, _ => none
 
-/-- `from_freq_ranges_in_hz`. -/
+/-- `from_freq_ranges_in_hz` (repaired: an empty range `f..f` is skipped BEFORE the exclusive end is rounded up). -/
 def fromFreqRangeBits (w sh cap : Nat) (rs : List Rng) : List Rng :=
-  fromMaxdepthRanges sh cap (rs.filterMap (freqRangeIdx w))
+  fromMaxdepthRanges sh cap ((rs.filter fun r => decide (r.1 < r.2)).filterMap (freqRangeIdx w))
 
 /-- `from_microsec_since_jd0`: `T::from_u64_idx(t) >> shift`. -/
 def fromMicrosec (w sh cap : Nat) (ts : List Nat) : List Rng :=
   fromFixedDepthCells sh cap (ts.map fun t => (narrow (64 - w) t) >>> sh)
 
-/-- `from_microsec_ranges_since_jd0`. -/
+/-- `from_microsec_ranges_since_jd0` (repaired: an empty range is skipped BEFORE the exclusive end is rounded up
+    on a narrower index type, where it would otherwise become a whole cell). -/
 def fromMicrosecRanges (w sh cap : Nat) (rs : List Rng) : List Rng :=
-  fromMaxdepthRanges sh cap (rs.map fun r => (narrow (64 - w) r.1, narrowUp (64 - w) r.2))
+  fromMaxdepthRanges sh cap
+    ((rs.filter fun r => decide (r.1 < r.2)).map fun r => (narrow (64 - w) r.1, narrowUp (64 - w) r.2))
 
 end Moc
